@@ -37,11 +37,13 @@ func runC15(c *Ctx) {
 	borrow(c, "O4", "C06", "O4", "consolidation.attemptToConsolidatePreemptor: solver validator", "the all-victims-replaced test must be the validator the consolidation solver uses")
 	borrow(c, "O4", "C06", "O4", "handleScenarioSolution", "a scenario counts as solved only behind its validator")
 	// evictions only together with the placement they were made for
+	borrow(c, "O12", "C08", "O1", "allocation behind the queue capacity gate", "the simulation of reclaim / preempt / consolidation must refuse what the next allocate refuses: without the queue limit in the simulation victims are evicted for a workload that is then turned away, the victim is bound again and the same eviction repeats every cycle")
 	borrow(c, "O5", "C03", "O2", "Commit behind a successful attempt", "evictions committed for a failed placement are repeated by the next cycle for the same pending workload")
 	borrow(c, "O5", "C06", "O5", "", "evictions and the preemptor's placement are one statement: no eviction is kept when the placement is undone")
 	borrow(c, "O5", "C13", "O5", "a failed eviction does not end the commit", "victims evicted for real while the nomination they were evicted for is dropped are evicted again for the same workload in the next cycle")
 	runC15Own(c)
 	runC15ShareIndependentOfAllocation(c)
+	runC15SimulationRefusesLikeAllocate(c)
 	runC15ActionWiring(c)
 }
 
@@ -298,4 +300,34 @@ func runC15ShareIndependentOfAllocation(c *Ctx) {
 	}
 	c.Floor("O11", "DEP functions of the share division", nFuncs, 10)
 	c.Floor("O11", "DEP reads of the current allocation in the share division", nReads, 3)
+}
+
+// runC15SimulationRefusesLikeAllocate (O13): the victim-based actions simulate the next allocate with the same
+// AllocateJob code (isPipelineOnly); what real allocation refuses the simulation must refuse too, or victims are evicted
+// for a workload that is turned away afterwards, every cycle again. In allocateTask every placement is behind a
+// successful pre-predicate, on every path, whatever the mode.
+func runC15SimulationRefusesLikeAllocate(c *Ctx) {
+	p := c.P
+	f := c.Anchor("O13", "pkg/scheduler/actions/common", "", "allocateTask")
+	if f == nil {
+		return
+	}
+	placing := p.performs(isCallToFn(p.Func("pkg/scheduler/framework", "Statement", "Allocate"), p.Func("pkg/scheduler/framework", "Statement", "Pipeline")), 8)
+	passed := func(fs FactSet) bool {
+		_, ok := fs.find(func(ft Fact) bool {
+			t := ft.T
+			if t.Op != "bin" || t.Name != "==" || !ft.Pol || len(t.Args) != 2 || !t.Args[1].isNilConst() {
+				return false
+			}
+			return strings.Contains(t.Args[0].String(), "PrePredicateFn")
+		})
+		return ok
+	}
+	n := 0
+	for _, in := range instrsIn(f, placing) {
+		n++
+		c.Check(c.Fx.allPathsSatisfy(in, passed), "O13", "DOM", funcKey(f)+": a task is placed only behind a successful pre-predicate", instrPos(in), "PrePredicateFn(task, job) == nil on every path",
+			"a task can be placed although its pre-predicate failed (e.g. only in the simulation mode): reclaim / preempt / consolidation evict victims for a pod that the next allocate rejects, the victims are bound again and evicted again")
+	}
+	c.Floor("O13", "DOM placements in allocateTask", n, 1)
 }
